@@ -12,7 +12,7 @@ import uuid
 from ..world import World
 from .. import net as N
 from .. import sched as S
-from .common import SERIALIZERS, SER_IDS
+from .common import SERIALIZERS, SER_IDS, install_script, break_conn
 from ..seams import config, CL, SV, PR
 import Pyro5.api as api
 import Pyro5.errors as E
@@ -95,7 +95,7 @@ class CtxWorld(World):
     STUB = ["sockets/selector (in-memory) with recording middlebox", "threads (baton scheduler, line pre-emption in handleRequest)",
             "time (virtual clock)", "uuid4 (seeded)"]
     PROBES = ["raise_after_set", "oneway_mutate", "worker_reuse", "handshake_after_raise", "batch", "ping", "prop",
-              "assign_idiom", "mutate_idiom", "multiplex", "thread", "preempted", "pool_full_retry", "oneway_delayed"]
+              "assign_idiom", "mutate_idiom", "multiplex", "thread", "preempted", "pool_full_retry", "oneway_delayed", "reply_reset_then_reconnect"]
     RULE = ("plan = (server type, pool size 1-2, serializer, 2-3 clients x 1-2 sessions x 1-5 calls of kinds "
             "ret/boom/ow/plain/batch/prop/ping, each with a unique annotation key set by assignment or mutation, "
             "pre-emption probabilities); distinct = distinct interleaving digest; non-trivial = at least two clients' "
@@ -118,7 +118,8 @@ class CtxWorld(World):
             kn[0] += 1
             k = rng.choice(["ret", "ret", "boom", "boom", "ow", "plain", "batch", "prop", "ping"])
             return {"kind": k, "key": "K%03d" % kn[0], "mutate": rng.random() < 0.5, "pause": rng.choice([0, 0, 0.01]),
-                    "ow_delay": rng.choice([0, 0, 0.005, 0.02]), "work": rng.choice([0, 0, 0.01, 0.04])}
+                    "ow_delay": rng.choice([0, 0, 0.005, 0.02]), "work": rng.choice([0, 0, 0.01, 0.04]),
+                    "reset_reply": k in ("ret", "boom", "plain") and rng.random() < 0.12}
 
         clients = []
         for _ in range(nclients):
@@ -142,10 +143,24 @@ class CtxWorld(World):
         config.COMMTIMEOUT = 0.0
         ctx.probe(plan["servertype"])
 
-        def on_connect(idx, csock, ssock):
-            csock.out = N.MessagePipe(net, csock, ssock, idx, "c2s")
-            ssock.out = N.MessagePipe(net, ssock, csock, idx, "s2c")
-        net.on_connect = on_connect
+        # fault: the reply of a call marked "RSET" is never delivered - the connection is reset instead (the serving
+        # thread's send may fail, the client sees a communication error and reconnects: nothing may leak into that)
+        doomed = set()
+
+        def c2s(pipe, k, info, raw):
+            if info["type"] == N.MSG_INVOKE and "RSET" in info["ann"]:
+                doomed.add((pipe.conn, info["seq"]))
+            return True
+
+        def s2c(pipe, k, info, raw):
+            if info["type"] == N.MSG_RESULT and (pipe.conn, info["seq"]) in doomed:
+                c, s_ = net.conns[pipe.conn]
+                break_conn(c, s_)
+                ctx.fault("reply_reset")
+                return None
+            return True
+
+        install_script(net, c2s, s2c)
 
         daemon = SV.Daemon(host="127.0.0.1", port=0)
         obj = CtxObj(sched)
@@ -185,6 +200,8 @@ class CtxWorld(World):
                     tok = "c%ds%dj%d" % (ci, si, j)
                     kind = c["kind"]
                     cctx.annotations = {"REQA": tok.encode()}
+                    if c.get("reset_reply"):
+                        cctx.annotations["RSET"] = b"1"
                     cctx.correlation_id = new_corr() if cspec["corr"] else None
                     rec = {"kind": kind, "key": c["key"], "mutate": c["mutate"], "conn": conn, "corr": cctx.correlation_id,
                            "laddr": p._pyroLocalSocket}
@@ -214,6 +231,8 @@ class CtxWorld(World):
                     rec["seen"] = {k: bytes(v) for k, v in cctx.response_annotations.items()} if kind != "ping" else None
                     ops[tok] = rec
                     if outcome.startswith("comm"):
+                        if c.get("reset_reply"):
+                            ctx.probe("reply_reset_then_reconnect")
                         break
                     if c["pause"]:
                         sched.sleep(c["pause"])
